@@ -106,6 +106,7 @@ T = [
     ("fcb.lead", "FCB", ",7", "data", 1),
     ("fcc2", "FCC", '"AB"', "data", 2),
     ("fcc11", "FCC", "/HELLO WORLD/", "data", 11),
+    ("fcc.latin1", "FCC", "/CAF\u00c9 \u00ff\u0080/", "data", 7),        # characters $80-$FF are one byte each
     ("rmb0", "RMB", "0", "data", 0),
     ("rmb1", "RMB", "1", "data", 1),
     ("rmb7", "RMB", "7", "data", 7),
